@@ -16,7 +16,7 @@
    Proofs/EndToEndExits.v), and a Cond WITHOUT ARMS is lowered to a bare [err] block from which the
    end block cannot be reached (PyTeal's constructor rejects Cond(); [check_expr] does not model
    constructors).  The latter is the predicate [nec] ("no empty Cond") below; it is necessary
-   (Proofs/LatePassTotal.v, [sort_needs_cond_arms]).  One induction over the recipe, same skeleton
+   (Proofs/LatePassTotalExamples.v, [sort_needs_cond_arms]).  One induction over the recipe, same skeleton
    as Proofs/EndToEndExits.v. *)
 From Coq Require Import List Arith NArith String Bool Lia.
 From PV Require Import Base.Bytes AVM.Syntax Src.Expr Comp.Blocks Comp.WideRatio Comp.Lower Comp.Passes
